@@ -2,81 +2,28 @@
 Require Import KV.Update.Spec KV.Update.Model KV.Update.SetProofs KV.Update.InstProofs.
 Require Import Lia Permutation.
 
-(* ---- the known class: the keyword `a` in predicate position of a template ---- *)
-(* the keyword `a` in a predicate position: of the template quad itself or of a quoted triple inside it *)
-Fixpoint kwa_in (pred : bool) (t : tterm) : bool :=
-  match t with
-  | TKwA => pred
-  | TQuoted s p o => kwa_in false s || kwa_in true p || kwa_in false o
-  | _ => false
-  end.
-Definition tq_kwa (q : tquad) : bool := kwa_in false (tq_s q) || kwa_in true (tq_p q) || kwa_in false (tq_o q).
-Definition known_kw_a {wh} (u : update wh) : bool := existsb tq_kwa (u_del u ++ u_ins u).
-Definition req_known {wh} (r : request wh) : bool :=
-  match r with RText _ u | RTree u => known_kw_a u | _ => false end.
-
-Lemma s_term_gen_kwa : forall k1 k2 sol bnf t pred, kwa_in pred t = false ->
-  s_term_gen k1 pred sol bnf t = s_term_gen k2 pred sol bnf t.
-Proof.
-  induction t as [v|c|l| |ts IHs tp IHp to IHo]; intros pred H; simpl in *; auto.
-  - rewrite H; reflexivity.
-  - apply orb_false_iff in H. destruct H as [H H3]. apply orb_false_iff in H. destruct H as [H1 H2].
-    rewrite (IHs _ H1), (IHp _ H2), (IHo _ H3). reflexivity.
-Qed.
-
-Lemma s_quad_gen_kwa : forall k1 k2 D sol bnf q, tq_kwa q = false -> s_quad_gen k1 D sol bnf q = s_quad_gen k2 D sol bnf q.
-Proof.
-  intros k1 k2 D sol bnf q H. unfold s_quad_gen. unfold tq_kwa in H.
-  apply orb_false_iff in H. destruct H as [H H3]. apply orb_false_iff in H. destruct H as [H1 H2].
-  rewrite (s_term_gen_kwa k1 k2 sol bnf _ _ H1), (s_term_gen_kwa k1 k2 sol bnf _ _ H2), (s_term_gen_kwa k1 k2 sol bnf _ _ H3).
-  reflexivity.
-Qed.
-
-Lemma filter_map_ext_in : forall {A B} (f g : A -> option B) l, (forall x, In x l -> f x = g x) -> filter_map f l = filter_map g l.
-Proof.
-  induction l as [|a l IH]; simpl; intros H; auto.
-  rewrite (H a) by auto. destruct (g a); rewrite IH; auto.
-Qed.
-
-Lemma s_all_gen_kwa : forall k1 k2 D sols bn tqs,
-  existsb tq_kwa tqs = false -> s_all_gen k1 D sols bn tqs = s_all_gen k2 D sols bn tqs.
-Proof.
-  intros k1 k2 D sols; induction sols as [|sol r IH]; intros bn tqs H; simpl; auto.
-  rewrite (IH _ _ H). f_equal. apply filter_map_ext_in. intros q Hq. apply s_quad_gen_kwa.
-  destruct (tq_kwa q) eqn:E; auto.
-  assert (X : existsb tq_kwa tqs = true) by (apply existsb_exists; exists q; auto). congruence.
-Qed.
-
-Lemma spec_update_gen_kwa : forall {wh} ev (u : update wh) bn D,
-  known_kw_a u = false -> spec_update_gen ev a_word u bn D = spec_update ev u bn D.
-Proof.
-  intros wh ev u bn D H. unfold spec_update, spec_update_gen. unfold known_kw_a in H.
-  rewrite existsb_app in H. apply orb_false_iff in H. destruct H as [H1 H2].
-  rewrite (s_all_gen_kwa a_word rdf_type _ _ _ _ H1), (s_all_gen_kwa a_word rdf_type _ _ _ _ H2). reflexivity.
-Qed.
-
 (* ---- DELETE templates never allocate ---- *)
-Lemma m_term_false_bl : forall sol t bl st st' bl' r, m_term false sol t bl st = (st', bl', r) -> bl' = bl.
+Lemma m_term_false_bl : forall kwa sol t pred bl st st' bl' r, m_term kwa pred false sol t bl st = (st', bl', r) -> bl' = bl.
 Proof.
-  intros sol; induction t as [v|c|l| |ts IHs tp IHp to IHo]; intros bl st st' bl' r H; simpl in H; try (inversion H; auto; fail).
-  destruct (m_term false sol ts bl st) as [[st1 bl1] r1] eqn:E1. apply IHs in E1; subst bl1.
+  intros kwa sol; induction t as [v|c|l| |ts IHs tp IHp to IHo]; intros pred bl st st' bl' r H; simpl in H; try (inversion H; auto; fail).
+  destruct (m_term kwa false false sol ts bl st) as [[st1 bl1] r1] eqn:E1. apply IHs in E1; subst bl1.
   destruct r1 as [e|[s1|]]; try (inversion H; auto; fail).
-  destruct (m_term false sol tp bl st1) as [[st2 bl2] r2] eqn:E2. apply IHp in E2; subst bl2.
+  destruct (m_term kwa true false sol tp bl st1) as [[st2 bl2] r2] eqn:E2. apply IHp in E2; subst bl2.
   destruct r2 as [e|[p1|]]; try (inversion H; auto; fail).
-  destruct (m_term false sol to bl st2) as [[st3 bl3] r3] eqn:E3. apply IHo in E3; subst bl3.
+  destruct (m_term kwa false false sol to bl st2) as [[st3 bl3] r3] eqn:E3. apply IHo in E3; subst bl3.
   destruct r3 as [e|[o1|]]; inversion H; auto.
 Qed.
 
-Lemma m_quad_false_bl : forall D sol q bl st st' bl' r, m_quad false D sol q bl st = (st', bl', r) -> bl' = bl.
+Lemma m_quad_false_bl : forall kwa D sol q bl st st' bl' r, m_quad kwa false D sol q bl st = (st', bl', r) -> bl' = bl.
 Proof.
-  intros D sol q bl st st' bl' r H. unfold m_quad in H.
-  destruct (m_term false sol (tq_s q) bl st) as [[st1 bl1] r1] eqn:E1. apply m_term_false_bl in E1; subst bl1.
+  intros kwa D sol q bl st st' bl' r H. unfold m_quad in H.
+  destruct (m_term kwa false false sol (tq_s q) bl st) as [[st1 bl1] r1] eqn:E1. apply m_term_false_bl in E1; subst bl1.
   destruct r1 as [e|[s|]]; try (inversion H; auto; fail).
   destruct ((is_tvar (tq_s q) || is_qt s) && negb (legal_subject D s)); try (inversion H; auto; fail).
-  destruct (m_term false sol (tq_p q) bl st1) as [[st2 bl2] r2] eqn:E2. apply m_term_false_bl in E2; subst bl2.
+  destruct (m_term kwa true false sol (tq_p q) bl st1) as [[st2 bl2] r2] eqn:E2. apply m_term_false_bl in E2; subst bl2.
   destruct r2 as [e|[p|]]; try (inversion H; auto; fail).
   destruct (is_tvar (tq_p q) && negb (legal_predicate D p)); try (inversion H; auto; fail).
-  destruct (m_term false sol (tq_o q) bl st2) as [[st3 bl3] r3] eqn:E3. apply m_term_false_bl in E3; subst bl3.
+  destruct (m_term kwa false false sol (tq_o q) bl st2) as [[st3 bl3] r3] eqn:E3. apply m_term_false_bl in E3; subst bl3.
   destruct r3 as [e|[o|]]; try (inversion H; auto; fail).
   destruct (is_qt o && negb (legal_object D o)); try (inversion H; auto; fail).
   destruct (tq_g q); try (inversion H; auto; fail).
@@ -84,35 +31,35 @@ Proof.
   destruct (legal_graph D t); inversion H; auto.
 Qed.
 
-Lemma m_solution_false_bl : forall D sol tqs bl st acc st' bl' r,
-  m_solution false D sol tqs bl st acc = (st', bl', r) -> bl' = bl.
+Lemma m_solution_false_bl : forall kwa D sol tqs bl st acc st' bl' r,
+  m_solution kwa false D sol tqs bl st acc = (st', bl', r) -> bl' = bl.
 Proof.
-  intros D sol tqs; induction tqs as [|q rest IH]; intros bl st acc st' bl' r H; simpl in H.
+  intros kwa D sol tqs; induction tqs as [|q rest IH]; intros bl st acc st' bl' r H; simpl in H.
   - inversion H; auto.
-  - destruct (m_quad false D sol q bl st) as [[st1 bl1] r1] eqn:E1. apply m_quad_false_bl in E1; subst bl1.
+  - destruct (m_quad kwa false D sol q bl st) as [[st1 bl1] r1] eqn:E1. apply m_quad_false_bl in E1; subst bl1.
     destruct r1 as [e|[x|]]; [inversion H; auto | eapply IH; eauto | eapply IH; eauto].
 Qed.
 
-Lemma m_templates_false_tbl : forall D tqs sols st acc st' tbl r,
-  m_templates false D sols tqs st acc = (st', tbl, r) -> forall bn, tbl_agrees bn tbl.
+Lemma m_templates_false_tbl : forall kwa D tqs sols st acc st' tbl r,
+  m_templates kwa false D sols tqs st acc = (st', tbl, r) -> forall bn, tbl_agrees bn tbl.
 Proof.
-  intros D tqs sols; induction sols as [|sol rest IH]; intros st acc st' tbl r H bn; simpl in H.
+  intros kwa D tqs sols; induction sols as [|sol rest IH]; intros st acc st' tbl r H bn; simpl in H.
   - inversion H; subst. intros i bl Hi; destruct i; discriminate.
-  - destruct (m_solution false D sol tqs [] st acc) as [[st1 bl1] r1] eqn:E1. apply m_solution_false_bl in E1; subst bl1.
+  - destruct (m_solution kwa false D sol tqs [] st acc) as [[st1 bl1] r1] eqn:E1. apply m_solution_false_bl in E1; subst bl1.
     destruct r1 as [e|acc1].
     + inversion H; subst. intros i bl Hi. destruct i as [|[|i]]; simpl in Hi; try discriminate.
       inversion Hi; subst. intros l t Hl; discriminate.
-    + destruct (m_templates false D rest tqs st1 acc1) as [[st2 tbl2] r2] eqn:E2. inversion H; subst.
+    + destruct (m_templates kwa false D rest tqs st1 acc1) as [[st2 tbl2] r2] eqn:E2. inversion H; subst.
       intros i bl Hi. destruct i as [|i]; simpl in Hi.
       * inversion Hi; subst. intros l t Hl; discriminate.
       * eapply (IH _ _ _ _ _ E2 (fun j => bn (S j))); eauto.
 Qed.
 
 (* ---- no error on well-formed templates ---- *)
-Lemma m_term_noerr : forall insert sol t bl st st' bl' r,
-  (insert = true \/ has_tbnode t = false) -> m_term insert sol t bl st = (st', bl', r) -> exists ot, r = IOut ot.
+Lemma m_term_noerr : forall kwa insert sol t pred bl st st' bl' r,
+  (insert = true \/ has_tbnode t = false) -> m_term kwa pred insert sol t bl st = (st', bl', r) -> exists ot, r = IOut ot.
 Proof.
-  intros insert sol; induction t as [v|c|l| |ts IHs tp IHp to IHo]; intros bl st st' bl' r Hc H; simpl in H;
+  intros kwa insert sol; induction t as [v|c|l| |ts IHs tp IHp to IHo]; intros pred bl st st' bl' r Hc H; simpl in H;
     try (inversion H; eauto; fail).
   - destruct Hc as [->|Hc]; [|simpl in Hc; discriminate]. simpl in H.
     destruct (lookup l bl); [inversion H; eauto|].
@@ -124,66 +71,66 @@ Proof.
     { destruct Hc; auto. right. simpl in H0. destruct (has_tbnode tp); auto. rewrite orb_true_r in H0. discriminate. }
     assert (Ho : insert = true \/ has_tbnode to = false).
     { destruct Hc; auto. right. simpl in H0. destruct (has_tbnode to); auto. rewrite orb_true_r in H0. discriminate. }
-    destruct (m_term insert sol ts bl st) as [[st1 bl1] r1] eqn:E1.
-    destruct (IHs _ _ _ _ _ Hs E1) as [o1 ->]. destruct o1 as [s1|]; [|inversion H; eauto].
-    destruct (m_term insert sol tp bl1 st1) as [[st2 bl2] r2] eqn:E2.
-    destruct (IHp _ _ _ _ _ Hp E2) as [o2 ->]. destruct o2 as [p1|]; [|inversion H; eauto].
-    destruct (m_term insert sol to bl2 st2) as [[st3 bl3] r3] eqn:E3.
-    destruct (IHo _ _ _ _ _ Ho E3) as [o3 ->]. destruct o3 as [o1|]; inversion H; eauto.
+    destruct (m_term kwa false insert sol ts bl st) as [[st1 bl1] r1] eqn:E1.
+    destruct (IHs _ _ _ _ _ _ Hs E1) as [o1 ->]. destruct o1 as [s1|]; [|inversion H; eauto].
+    destruct (m_term kwa true insert sol tp bl1 st1) as [[st2 bl2] r2] eqn:E2.
+    destruct (IHp _ _ _ _ _ _ Hp E2) as [o2 ->]. destruct o2 as [p1|]; [|inversion H; eauto].
+    destruct (m_term kwa false insert sol to bl2 st2) as [[st3 bl3] r3] eqn:E3.
+    destruct (IHo _ _ _ _ _ _ Ho E3) as [o3 ->]. destruct o3 as [o1|]; inversion H; eauto.
 Qed.
 
-Lemma m_quad_noerr : forall insert D sol q bl st st' bl' r,
+Lemma m_quad_noerr : forall kwa insert D sol q bl st st' bl' r,
   (insert = true \/ tq_has_bnode q = false) -> tq_graph_ok q = true ->
-  m_quad insert D sol q bl st = (st', bl', r) -> exists oq, r = IOut oq.
+  m_quad kwa insert D sol q bl st = (st', bl', r) -> exists oq, r = IOut oq.
 Proof.
-  intros insert D sol q bl st st' bl' r Hc Hg H. unfold m_quad in H.
+  intros kwa insert D sol q bl st st' bl' r Hc Hg H. unfold m_quad in H.
   assert (Hs : insert = true \/ has_tbnode (tq_s q) = false).
   { destruct Hc; auto. right. unfold tq_has_bnode in H0. destruct (has_tbnode (tq_s q)); auto. }
   assert (Hp : insert = true \/ has_tbnode (tq_p q) = false).
   { destruct Hc; auto. right. unfold tq_has_bnode in H0. destruct (has_tbnode (tq_p q)); auto. rewrite orb_true_r in H0. discriminate. }
   assert (Ho : insert = true \/ has_tbnode (tq_o q) = false).
   { destruct Hc; auto. right. unfold tq_has_bnode in H0. destruct (has_tbnode (tq_o q)); auto. rewrite orb_true_r in H0. discriminate. }
-  destruct (m_term insert sol (tq_s q) bl st) as [[st1 bl1] r1] eqn:E1.
-  destruct (m_term_noerr _ _ _ _ _ _ _ _ Hs E1) as [o1 ->].
+  destruct (m_term kwa false insert sol (tq_s q) bl st) as [[st1 bl1] r1] eqn:E1.
+  destruct (m_term_noerr _ _ _ _ _ _ _ _ _ _ Hs E1) as [o1 ->].
   destruct o1 as [s|]; [|inversion H; eauto].
   destruct ((is_tvar (tq_s q) || is_qt s) && negb (legal_subject D s)); [inversion H; eauto|].
-  destruct (m_term insert sol (tq_p q) bl1 st1) as [[st2 bl2] r2] eqn:E2.
-  destruct (m_term_noerr _ _ _ _ _ _ _ _ Hp E2) as [o2 ->].
+  destruct (m_term kwa true insert sol (tq_p q) bl1 st1) as [[st2 bl2] r2] eqn:E2.
+  destruct (m_term_noerr _ _ _ _ _ _ _ _ _ _ Hp E2) as [o2 ->].
   destruct o2 as [p|]; [|inversion H; eauto].
   destruct (is_tvar (tq_p q) && negb (legal_predicate D p)); [inversion H; eauto|].
-  destruct (m_term insert sol (tq_o q) bl2 st2) as [[st3 bl3] r3] eqn:E3.
-  destruct (m_term_noerr _ _ _ _ _ _ _ _ Ho E3) as [o3 ->].
+  destruct (m_term kwa false insert sol (tq_o q) bl2 st2) as [[st3 bl3] r3] eqn:E3.
+  destruct (m_term_noerr _ _ _ _ _ _ _ _ _ _ Ho E3) as [o3 ->].
   destruct o3 as [o|]; [|inversion H; eauto].
   destruct (is_qt o && negb (legal_object D o)); [inversion H; eauto|].
   unfold tq_graph_ok in Hg. destruct (tq_g q); try discriminate; try (inversion H; eauto; fail).
   destruct (lookup v sol); [|inversion H; eauto]. destruct (legal_graph D t); inversion H; eauto.
 Qed.
 
-Lemma m_solution_noerr : forall insert D sol tqs bl st acc st' bl' r,
+Lemma m_solution_noerr : forall kwa insert D sol tqs bl st acc st' bl' r,
   (insert = true \/ forallb (fun q => negb (tq_has_bnode q)) tqs = true) -> forallb tq_graph_ok tqs = true ->
-  m_solution insert D sol tqs bl st acc = (st', bl', r) -> exists acc', r = IOut acc'.
+  m_solution kwa insert D sol tqs bl st acc = (st', bl', r) -> exists acc', r = IOut acc'.
 Proof.
-  intros insert D sol tqs; induction tqs as [|q rest IH]; intros bl st acc st' bl' r Hc Hg H; simpl in H.
+  intros kwa insert D sol tqs; induction tqs as [|q rest IH]; intros bl st acc st' bl' r Hc Hg H; simpl in H.
   - inversion H; eauto.
   - simpl in Hg. apply andb_true_iff in Hg. destruct Hg as [Hg1 Hg2].
     assert (Hq : insert = true \/ tq_has_bnode q = false).
     { destruct Hc as [Hc|Hc]; auto. simpl in Hc. apply andb_true_iff in Hc. destruct Hc as [Hc _]. right. destruct (tq_has_bnode q); auto. }
     assert (Hr : insert = true \/ forallb (fun q => negb (tq_has_bnode q)) rest = true).
     { destruct Hc as [Hc|Hc]; auto. simpl in Hc. apply andb_true_iff in Hc. destruct Hc as [_ Hc]. auto. }
-    destruct (m_quad insert D sol q bl st) as [[st1 bl1] r1] eqn:E1.
-    destruct (m_quad_noerr _ _ _ _ _ _ _ _ _ Hq Hg1 E1) as [oq ->].
+    destruct (m_quad kwa insert D sol q bl st) as [[st1 bl1] r1] eqn:E1.
+    destruct (m_quad_noerr _ _ _ _ _ _ _ _ _ _ Hq Hg1 E1) as [oq ->].
     destruct oq; eapply IH; eauto.
 Qed.
 
-Lemma m_templates_noerr : forall insert D tqs sols st acc st' tbl r,
+Lemma m_templates_noerr : forall kwa insert D tqs sols st acc st' tbl r,
   (insert = true \/ forallb (fun q => negb (tq_has_bnode q)) tqs = true) -> forallb tq_graph_ok tqs = true ->
-  m_templates insert D sols tqs st acc = (st', tbl, r) -> exists acc', r = IOut acc'.
+  m_templates kwa insert D sols tqs st acc = (st', tbl, r) -> exists acc', r = IOut acc'.
 Proof.
-  intros insert D tqs sols; induction sols as [|sol rest IH]; intros st acc st' tbl r Hc Hg H; simpl in H.
+  intros kwa insert D tqs sols; induction sols as [|sol rest IH]; intros st acc st' tbl r Hc Hg H; simpl in H.
   - inversion H; eauto.
-  - destruct (m_solution insert D sol tqs [] st acc) as [[st1 bl1] r1] eqn:E1.
-    destruct (m_solution_noerr _ _ _ _ _ _ _ _ _ _ Hc Hg E1) as [acc1 ->].
-    destruct (m_templates insert D rest tqs st1 acc1) as [[st2 tbl2] r2] eqn:E2.
+  - destruct (m_solution kwa insert D sol tqs [] st acc) as [[st1 bl1] r1] eqn:E1.
+    destruct (m_solution_noerr _ _ _ _ _ _ _ _ _ _ _ Hc Hg E1) as [acc1 ->].
+    destruct (m_templates kwa insert D rest tqs st1 acc1) as [[st2 tbl2] r2] eqn:E2.
     inversion H; subst. eapply IH; eauto.
 Qed.
 
@@ -193,6 +140,7 @@ Section Main.
   Variable where_terms : wh -> list term.
 
   Notation exec_update := (exec_update wh eval_where where_terms).
+  Notation exec_update_gen := (exec_update_gen wh eval_where where_terms).
   Notation exec_request := (exec_request wh eval_where where_terms).
   Notation run := (run wh eval_where where_terms).
 
@@ -242,35 +190,35 @@ Section Main.
     bn_of tbl (dflt_bn (N.max (next s') (bn_max (dict s)))).
 
   Opaque apply_mutations.
-  Theorem exec_update_done : forall u s s' i d tbl,
-    exec_update u s = (s', Done i d, tbl) -> wf s ->
+  Theorem exec_update_done : forall kwa u s s' i d tbl,
+    exec_update_gen kwa u s = (s', Done i d, tbl) -> wf s ->
     let bn := model_bn s s' tbl in
     fresh_bn bn (den s) /\
-    den s' = fst (spec_update_gen eval_where a_word u bn (den s)) /\
-    (i, d) = snd (spec_update_gen eval_where a_word u bn (den s)) /\
+    den s' = fst (spec_update_gen eval_where kwa u bn (den s)) /\
+    (i, d) = snd (spec_update_gen eval_where kwa u bn (den s)) /\
     incl (dict s) (dict s') /\ next s <= next s' /\ pfx s' = pfx s /\ (closed_for u s -> wf s').
   Proof.
-    intros u s s' i d tbl H Hwf. unfold Model.exec_update in H.
+    intros kwa u s s' i d tbl H Hwf. unfold Model.exec_update_gen in H.
     set (D := den s) in *. set (sols := u_sols eval_where u D) in *.
     set (st1 := compile_where wh where_terms (u_where wh u) (IS (dict s) (next s))) in *.
     destruct (compile_where_mono (u_where wh u) (IS (dict s) (next s))) as [C1 [C2 _]]. fold st1 in C1, C2. simpl in C1, C2.
-    destruct (m_templates false D sols (u_del u) st1 []) as [[st2 tbl1] r1] eqn:E1.
-    destruct (m_templates_ok _ _ _ _ _ _ _ _ _ (dict s) E1 C1) as [A1 [A2 [A3 R1]]].
+    destruct (m_templates kwa false D sols (u_del u) st1 []) as [[st2 tbl1] r1] eqn:E1.
+    destruct (m_templates_ok _ _ _ _ _ _ _ _ _ _ (dict s) E1 C1) as [A1 [A2 [A3 R1]]].
     destruct r1 as [e|dels]; [inversion H|].
     destruct (R1 _ eq_refl) as [L1 [S1 I1]].
-    destruct (m_templates true D sols (u_ins u) st2 []) as [[st3 tbl2] r2] eqn:E2.
+    destruct (m_templates kwa true D sols (u_ins u) st2 []) as [[st3 tbl2] r2] eqn:E2.
     assert (C3 : incl (dict s) (i_dict st2)) by (eapply incl_tran; eauto).
-    destruct (m_templates_ok _ _ _ _ _ _ _ _ _ (dict s) E2 C3) as [B1 [B2 [B3 R2]]].
+    destruct (m_templates_ok _ _ _ _ _ _ _ _ _ _ (dict s) E2 C3) as [B1 [B2 [B3 R2]]].
     destruct r2 as [e|inss]; [inversion H|].
     destruct (R2 _ eq_refl) as [L2 [S2 I2]].
     inversion H; subst s' i d tbl2; clear H. unfold model_bn. cbn [next dict quads cat pfx den]. cbv zeta.
     destruct Hwf as [HN [HG Hcov]].
     set (bn := bn_of tbl (dflt_bn (N.max (i_next st3) (bn_max (dict s))))).
-    assert (Hdel : dels = union quad_eqb [] (s_all_gen a_word D sols no_bn (u_del u))).
+    assert (Hdel : dels = union quad_eqb [] (s_all_gen kwa D sols no_bn (u_del u))).
     { apply S1. eapply m_templates_false_tbl; eauto. }
-    assert (Hins : inss = union quad_eqb [] (s_all_gen a_word D sols bn (u_ins u))).
+    assert (Hins : inss = union quad_eqb [] (s_all_gen kwa D sols bn (u_ins u))).
     { apply S2. apply bn_of_agrees. }
-    assert (Happ : apply_mutations dels inss D = spec_apply D (s_all_gen a_word D sols no_bn (u_del u)) (s_all_gen a_word D sols bn (u_ins u))).
+    assert (Happ : apply_mutations dels inss D = spec_apply D (s_all_gen kwa D sols no_bn (u_del u)) (s_all_gen kwa D sols bn (u_ins u))).
     { rewrite Hdel, Hins. apply apply_mutations_spec; auto. }
     split; [|split; [|split; [|split; [|split; [|split]]]]].
     - eapply bn_of_fresh; eauto; lia.
@@ -287,7 +235,7 @@ Section Main.
       { apply (sols_in_dict u s st2); [repeat split; auto | exact Hcl | exact A1]. }
       assert (Hacc : acc_in inss (i_dict st3)) by (apply I2; [exact Hsolin | intros x []]).
       rewrite Happ. unfold spec_apply; simpl.
-      set (Del := s_all_gen a_word D sols no_bn (u_del u)) in *. set (Ins := s_all_gen a_word D sols bn (u_ins u)) in *.
+      set (Del := s_all_gen kwa D sols no_bn (u_del u)) in *. set (Ins := s_all_gen kwa D sols bn (u_ins u)) in *.
       assert (HinsIn : forall q, In q Ins -> quad_in q (i_dict st3)).
       { intros q Hq. apply Hacc. rewrite Hins. apply (In_union quad_eqb quad_eqb_spec). auto. }
       assert (Hold : incl (dict s) (i_dict st3)) by (eapply incl_tran; eauto).
@@ -325,21 +273,21 @@ Section Main.
   Qed.
 
   (* ---- a rejected operation: dataset, catalog and prefixes untouched; dictionary and counter only grow ---- *)
-  Theorem exec_update_rejected : forall u s s' c tbl,
-    exec_update u s = (s', Rejected c, tbl) ->
+  Theorem exec_update_rejected : forall kwa u s s' c tbl,
+    exec_update_gen kwa u s = (s', Rejected c, tbl) ->
     quads s' = quads s /\ cat s' = cat s /\ pfx s' = pfx s /\ incl (dict s) (dict s') /\ next s <= next s'.
   Proof.
-    intros u s s' c tbl H. unfold Model.exec_update in H.
+    intros kwa u s s' c tbl H. unfold Model.exec_update_gen in H.
     set (D := den s) in *. set (sols := u_sols eval_where u D) in *.
     set (st1 := compile_where wh where_terms (u_where wh u) (IS (dict s) (next s))) in *.
     destruct (compile_where_mono (u_where wh u) (IS (dict s) (next s))) as [C1 [C2 _]]. fold st1 in C1, C2. simpl in C1, C2.
-    destruct (m_templates false D sols (u_del u) st1 []) as [[st2 tbl1] r1] eqn:E1.
-    destruct (m_templates_ok _ _ _ _ _ _ _ _ _ (dict s) E1 C1) as [A1 [A2 _]].
+    destruct (m_templates kwa false D sols (u_del u) st1 []) as [[st2 tbl1] r1] eqn:E1.
+    destruct (m_templates_ok _ _ _ _ _ _ _ _ _ _ (dict s) E1 C1) as [A1 [A2 _]].
     destruct r1 as [e|dels].
     - inversion H; subst; simpl. repeat split; auto. eapply incl_tran; eauto. lia.
-    - destruct (m_templates true D sols (u_ins u) st2 []) as [[st3 tbl2] r2] eqn:E2.
+    - destruct (m_templates kwa true D sols (u_ins u) st2 []) as [[st3 tbl2] r2] eqn:E2.
       assert (C3 : incl (dict s) (i_dict st2)) by (eapply incl_tran; eauto).
-      destruct (m_templates_ok _ _ _ _ _ _ _ _ _ (dict s) E2 C3) as [B1 [B2 _]].
+      destruct (m_templates_ok _ _ _ _ _ _ _ _ _ _ (dict s) E2 C3) as [B1 [B2 _]].
       destruct r2 as [e|inss]; inversion H; subst; simpl. repeat split; auto. eapply incl_tran; eauto. lia.
   Qed.
 
@@ -360,10 +308,10 @@ Section Main.
       repeat match goal with b : bool |- _ => destruct b end; reflexivity.
   Qed.
 
-  Theorem exec_update_accepts : forall u s,
-    parser_accepts wh u = true -> exists s' i d tbl, exec_update u s = (s', Done i d, tbl).
+  Theorem exec_update_accepts : forall kwa u s,
+    parser_accepts wh u = true -> exists s' i d tbl, exec_update_gen kwa u s = (s', Done i d, tbl).
   Proof.
-    intros u s H. unfold Model.exec_update.
+    intros kwa u s H. unfold Model.exec_update_gen.
     set (D := den s). set (sols := u_sols eval_where u D).
     set (st1 := compile_where wh where_terms (u_where wh u) (IS (dict s) (next s))).
     assert (Hd : forallb (fun q => negb (tq_has_bnode q)) (u_del u) = true /\ forallb tq_graph_ok (u_del u) = true /\
@@ -371,10 +319,10 @@ Section Main.
     { rewrite parser_accepts_wf in H. unfold well_formed in H.
       repeat (apply andb_true_iff in H; destruct H as [H ?]). auto. }
     destruct Hd as [H1 [H2 H3]].
-    destruct (m_templates false D sols (u_del u) st1 []) as [[st2 tbl1] r1] eqn:E1.
-    destruct (m_templates_noerr _ _ _ _ _ _ _ _ _ (or_intror H1) H2 E1) as [dels ->].
-    destruct (m_templates true D sols (u_ins u) st2 []) as [[st3 tbl2] r2] eqn:E2.
-    destruct (m_templates_noerr _ _ _ _ _ _ _ _ _ (or_introl eq_refl) H3 E2) as [inss ->].
+    destruct (m_templates kwa false D sols (u_del u) st1 []) as [[st2 tbl1] r1] eqn:E1.
+    destruct (m_templates_noerr _ _ _ _ _ _ _ _ _ _ (or_intror H1) H2 E1) as [dels ->].
+    destruct (m_templates kwa true D sols (u_ins u) st2 []) as [[st3 tbl2] r2] eqn:E2.
+    destruct (m_templates_noerr _ _ _ _ _ _ _ _ _ _ (or_introl eq_refl) H3 E2) as [inss ->].
     eauto.
   Qed.
 
@@ -392,26 +340,24 @@ Section Main.
     end.
 
   Theorem exec_request_step : forall r s,
-    wf s -> req_known r = false ->
+    wf s ->
     step_ok (den s) r (snd (exec_request r s)) (den (fst (exec_request r s))) /\ wf (fst (exec_request r s)).
   Proof.
-    intros r s Hwf Hk. destruct r as [|decl|decl u|u]; simpl.
+    intros r s Hwf. destruct r as [|decl|decl u|u]; simpl; unfold Model.exec_update.
     - split; auto. split; auto. intros; discriminate.
     - split; auto. split; auto. intros; discriminate.
     - destruct (parser_accepts wh u) eqn:Ep.
-      + destruct (exec_update_accepts u (add_prefixes decl s) Ep) as [s' [i [d [tbl E]]]].
-        rewrite E; simpl. destruct (exec_update_done _ _ _ _ _ _ E (add_prefixes_wf decl s Hwf)) as [F [X1 [X2 [_ [_ [_ W0]]]]]].
+      + destruct (exec_update_accepts rdf_type u (add_prefixes decl s) Ep) as [s' [i [d [tbl E]]]].
+        rewrite E; simpl. destruct (exec_update_done _ _ _ _ _ _ _ E (add_prefixes_wf decl s Hwf)) as [F [X1 [X2 [_ [_ [_ W0]]]]]].
         pose proof (W0 (closed_for_all _ _)) as W.
-        rewrite spec_update_gen_kwa in X1, X2 by exact Hk.
         split; auto. exists u; eexists. split; [right; exists decl; split; [reflexivity | rewrite <- parser_accepts_wf; exact Ep]|].
         split; [exact F|]. split; [exact X1 | exact X2].
       + simpl. split; auto. split; auto. intros decl0 u0 E; inversion E; subst. rewrite <- parser_accepts_wf; exact Ep.
-    - destruct (exec_update u s) as [[s' o] tbl] eqn:E. simpl. destruct o as [i d|c].
-      + destruct (exec_update_done _ _ _ _ _ _ E Hwf) as [F [X1 [X2 [_ [_ [_ W0]]]]]].
+    - destruct (exec_update_gen rdf_type u s) as [[s' o] tbl] eqn:E. simpl. destruct o as [i d|c].
+      + destruct (exec_update_done _ _ _ _ _ _ _ E Hwf) as [F [X1 [X2 [_ [_ [_ W0]]]]]].
         pose proof (W0 (closed_for_all _ _)) as W.
-        rewrite spec_update_gen_kwa in X1, X2 by exact Hk.
         split; auto. exists u; eexists. split; [left; reflexivity|]. split; [exact F|]. split; [exact X1 | exact X2].
-      + destruct (exec_update_rejected _ _ _ _ _ E) as [Q [C [P [Dd N]]]].
+      + destruct (exec_update_rejected _ _ _ _ _ _ E) as [Q [C [P [Dd N]]]].
         split; [split|].
         * unfold den; rewrite Q, C; reflexivity.
         * intros; discriminate.
@@ -419,15 +365,14 @@ Section Main.
   Qed.
 
   Theorem run_history : forall reqs s,
-    wf s -> forallb (fun r => negb (req_known r)) reqs = true ->
+    wf s ->
     spec_trace eval_where (den s) (combine reqs (snd (run reqs s))) (den (fst (run reqs s))) /\
     wf (fst (run reqs s)) /\ length (snd (run reqs s)) = length reqs.
   Proof.
-    induction reqs as [|r rest IH]; intros s Hwf Hk; simpl.
+    induction reqs as [|r rest IH]; intros s Hwf; simpl.
     - split; [constructor | auto].
-    - simpl in Hk. apply andb_true_iff in Hk. destruct Hk as [Hk1 Hk2]. apply negb_true_iff in Hk1.
-      destruct (exec_request_step r s Hwf Hk1) as [Hstep Hwf1].
-      destruct (IH _ Hwf1 Hk2) as [Htr [Hwf2 Hlen]].
+    - destruct (exec_request_step r s Hwf) as [Hstep Hwf1].
+      destruct (IH _ Hwf1) as [Htr [Hwf2 Hlen]].
       split; [|split; [exact Hwf2 | simpl; rewrite Hlen; reflexivity]].
       destruct (snd (exec_request r s)) as [i d|c] eqn:Eo; unfold step_ok in Hstep.
       + destruct Hstep as [u [bn [Hr [F [X1 X2]]]]].
@@ -441,38 +386,38 @@ Section Main.
     let s' := fst (exec_request r s) in
     quads s' = quads s /\ cat s' = cat s /\ incl (dict s) (dict s') /\ next s <= next s' /\ incl (pfx s) (pfx s').
   Proof.
-    intros r s c H. destruct r as [|decl|decl u|u]; simpl in *.
+    intros r s c H. destruct r as [|decl|decl u|u]; simpl in *; unfold Model.exec_update in *.
     - repeat split; auto using incl_refl; lia.
     - repeat split; auto using incl_refl; try lia. intros x Hx. apply (In_union N.eqb N.eqb_spec); auto.
     - destruct (parser_accepts wh u).
-      + destruct (exec_update u (add_prefixes decl s)) as [[s' o] tbl] eqn:E. simpl in *. subst o.
-        destruct (exec_update_rejected _ _ _ _ _ E) as [Q [C [P [Dd N]]]]. simpl in *.
+      + destruct (exec_update_gen rdf_type u (add_prefixes decl s)) as [[s' o] tbl] eqn:E. simpl in *. subst o.
+        destruct (exec_update_rejected _ _ _ _ _ _ E) as [Q [C [P [Dd N]]]]. simpl in *.
         repeat split; auto. rewrite P. intros x Hx. apply (In_union N.eqb N.eqb_spec); auto.
       + simpl. repeat split; auto using incl_refl; lia.
-    - destruct (exec_update u s) as [[s' o] tbl] eqn:E. simpl in *. subst o.
-      destruct (exec_update_rejected _ _ _ _ _ E) as [Q [C [P [Dd N]]]].
+    - destruct (exec_update_gen rdf_type u s) as [[s' o] tbl] eqn:E. simpl in *. subst o.
+      destruct (exec_update_rejected _ _ _ _ _ _ E) as [Q [C [P [Dd N]]]].
       repeat split; auto. rewrite P. apply incl_refl.
   Qed.
 
   (* ---- fresh blank nodes ---- *)
-  Theorem exec_update_fresh : forall u s s' o tbl,
-    exec_update u s = (s', o, tbl) ->
+  Theorem exec_update_fresh : forall kwa u s s' o tbl,
+    exec_update_gen kwa u s = (s', o, tbl) ->
     (forall i bl l t, nth_error tbl i = Some bl -> lookup l bl = Some t ->
        exists k, t = Bn k l /\ next s <= k < next s' /\ ~ In t (dict s)) /\
     (forall i i' bl bl' l l' t, nth_error tbl i = Some bl -> nth_error tbl i' = Some bl' ->
        lookup l bl = Some t -> lookup l' bl' = Some t -> i = i' /\ l = l').
   Proof.
-    intros u s s' o tbl H. unfold Model.exec_update in H.
+    intros kwa u s s' o tbl H. unfold Model.exec_update_gen in H.
     set (D := den s) in *. set (sols := u_sols eval_where u D) in *.
     set (st1 := compile_where wh where_terms (u_where wh u) (IS (dict s) (next s))) in *.
     destruct (compile_where_mono (u_where wh u) (IS (dict s) (next s))) as [C1 [C2 _]]. fold st1 in C1, C2. simpl in C1, C2.
-    destruct (m_templates false D sols (u_del u) st1 []) as [[st2 tbl1] r1] eqn:E1.
-    destruct (m_templates_ok _ _ _ _ _ _ _ _ _ (dict s) E1 C1) as [A1 [A2 _]].
+    destruct (m_templates kwa false D sols (u_del u) st1 []) as [[st2 tbl1] r1] eqn:E1.
+    destruct (m_templates_ok _ _ _ _ _ _ _ _ _ _ (dict s) E1 C1) as [A1 [A2 _]].
     destruct r1 as [e|dels].
     { inversion H; subst. split; intros; destruct i; discriminate. }
-    destruct (m_templates true D sols (u_ins u) st2 []) as [[st3 tbl2] r2] eqn:E2.
+    destruct (m_templates kwa true D sols (u_ins u) st2 []) as [[st3 tbl2] r2] eqn:E2.
     assert (C3 : incl (dict s) (i_dict st2)) by (eapply incl_tran; eauto).
-    destruct (m_templates_ok _ _ _ _ _ _ _ _ _ (dict s) E2 C3) as [B1 [B2 [B3 _]]].
+    destruct (m_templates_ok _ _ _ _ _ _ _ _ _ _ (dict s) E2 C3) as [B1 [B2 [B3 _]]].
     assert (Hn : next s' = i_next st3 /\ tbl = tbl2) by (destruct r2; inversion H; subst; simpl; auto).
     destruct Hn as [Hn ->]. rewrite Hn. split.
     - intros i bl l t Hi Hl. destruct (ranges_entry _ _ _ _ _ _ _ _ B3 Hi Hl) as [k [E [R F]]].
@@ -526,31 +471,49 @@ Qed.
 Lemma step_spec :
   forall (wh : Type) (eval_where : wh -> dataset -> list solution) (where_terms : wh -> list term)
          (u : update wh) (s s' : state) (i d : N) (tbl : list blmap),
-    wf s -> known_kw_a u = false ->
+    wf s ->
     exec_update wh eval_where where_terms u s = (s', Done i d, tbl) ->
     exists bn, fresh_bn bn (den s) /\
                den s' = fst (spec_update eval_where u bn (den s)) /\
                (i, d) = snd (spec_update eval_where u bn (den s)).
 Proof.
-  intros wh ev wt u s s' i d tbl Hwf Hk H.
-  destruct (exec_update_done wh ev wt u s s' i d tbl H Hwf) as [F [X1 [X2 _]]].
-  rewrite spec_update_gen_kwa in X1, X2 by exact Hk.
+  intros wh ev wt u s s' i d tbl Hwf H.
+  destruct (exec_update_done wh ev wt rdf_type u s s' i d tbl H Hwf) as [F [X1 [X2 _]]].
   exists (model_bn s s' tbl). auto.
 Qed.
 
-Lemma step_model :
+(* the executor with any other reading `kwa` of the keyword `a` in predicate position computes the
+   Spec with that reading (kwa = a_word: the executor before the repair) *)
+Lemma step_any_reading :
   forall (wh : Type) (eval_where : wh -> dataset -> list solution) (where_terms : wh -> list term)
-         (u : update wh) (s s' : state) (i d : N) (tbl : list blmap),
+         (kwa : term) (u : update wh) (s s' : state) (i d : N) (tbl : list blmap),
     wf s ->
-    exec_update wh eval_where where_terms u s = (s', Done i d, tbl) ->
+    exec_update_gen wh eval_where where_terms kwa u s = (s', Done i d, tbl) ->
     exists bn, fresh_bn bn (den s) /\
-               den s' = fst (spec_update_gen eval_where a_word u bn (den s)) /\
-               (i, d) = snd (spec_update_gen eval_where a_word u bn (den s)).
+               den s' = fst (spec_update_gen eval_where kwa u bn (den s)) /\
+               (i, d) = snd (spec_update_gen eval_where kwa u bn (den s)).
 Proof.
-  intros wh ev wt u s s' i d tbl Hwf H.
-  destruct (exec_update_done wh ev wt u s s' i d tbl H Hwf) as [F [X1 [X2 _]]].
+  intros wh ev wt kwa u s s' i d tbl Hwf H.
+  destruct (exec_update_done wh ev wt kwa u s s' i d tbl H Hwf) as [F [X1 [X2 _]]].
   exists (model_bn s s' tbl). auto.
 Qed.
+
+Lemma atomic_executor :
+  forall (wh : Type) (eval_where : wh -> dataset -> list solution) (where_terms : wh -> list term)
+         (u : update wh) (s s' : state) (c : N) (tbl : list blmap),
+    exec_update wh eval_where where_terms u s = (s', Rejected c, tbl) ->
+    quads s' = quads s /\ cat s' = cat s /\ pfx s' = pfx s /\ incl (dict s) (dict s') /\ next s <= next s'.
+Proof. intros wh ev wt. exact (exec_update_rejected wh ev wt rdf_type). Qed.
+
+Lemma fresh_bnodes :
+  forall (wh : Type) (eval_where : wh -> dataset -> list solution) (where_terms : wh -> list term)
+         (u : update wh) (s s' : state) (o : outcome) (tbl : list blmap),
+    exec_update wh eval_where where_terms u s = (s', o, tbl) ->
+    (forall i bl l t, nth_error tbl i = Some bl -> lookup l bl = Some t ->
+       exists k, t = Bn k l /\ next s <= k < next s' /\ ~ In t (dict s)) /\
+    (forall i i' bl bl' l l' t, nth_error tbl i = Some bl -> nth_error tbl i' = Some bl' ->
+       lookup l bl = Some t -> lookup l' bl' = Some t -> i = i' /\ l = l').
+Proof. intros wh ev wt. exact (exec_update_fresh wh ev wt rdf_type). Qed.
 
 Lemma atomic_request :
   forall (wh : Type) (eval_where : wh -> dataset -> list solution) (where_terms : wh -> list term)
@@ -569,8 +532,8 @@ Lemma accepts_iff :
     (well_formed u = true -> exists i d, snd (exec_request wh eval_where where_terms (RText decl u) s) = Done i d) /\
     (well_formed u = false -> exists c, snd (exec_request wh eval_where where_terms (RText decl u) s) = Rejected c).
 Proof.
-  intros wh ev wt decl u s. simpl. rewrite parser_accepts_wf. split; intros H; rewrite H.
-  - destruct (exec_update_accepts wh ev wt u (add_prefixes decl s)) as [s' [i [d [tbl E]]]].
+  intros wh ev wt decl u s. simpl. unfold Model.exec_update. rewrite parser_accepts_wf. split; intros H; rewrite H.
+  - destruct (exec_update_accepts wh ev wt rdf_type u (add_prefixes decl s)) as [s' [i [d [tbl E]]]].
     + rewrite parser_accepts_wf; exact H.
     + rewrite E. simpl. eauto.
   - simpl. eauto.
@@ -581,8 +544,8 @@ Lemma history_spec :
     (forall w D sol v t a, In sol (eval_where w D) -> lookup v sol = Some t -> In a (atoms t) ->
        term_in_dataset a D \/ exists c, In c (where_terms w) /\ In a (atoms c)) ->
     forall (reqs : list (request wh)) (s : state),
-      wf s -> forallb (fun r => negb (req_known r)) reqs = true ->
+      wf s ->
       let res := run wh eval_where where_terms reqs s in
       spec_trace eval_where (den s) (combine reqs (snd res)) (den (fst res)) /\
       wf (fst res) /\ length (snd res) = length reqs.
-Proof. intros wh ev wt Hc reqs s Hwf Hk. exact (run_history wh ev wt Hc reqs s Hwf Hk). Qed.
+Proof. intros wh ev wt Hc reqs s Hwf. exact (run_history wh ev wt Hc reqs s Hwf). Qed.
